@@ -1722,3 +1722,26 @@ mutant("c15-backoff-reset-only-when-reconnecting", "C15", "C15-D4", "client_mana
 MUTANTS[-1]["then"] = ("		go m.reconnect(false)\n	}\n}", "		m.backoff.reset()\n		go m.reconnect(false)\n	}\n}")
 mutant("c15-volatile-enters-retry-queue", "C15", "C15-D4", "client_socket.go",
        "	if s.config.Retries > 0 && !fromQueue && !volatile {", "	if s.config.Retries > 0 && !fromQueue {")
+
+# ---------------------------------------------------------------- C19 (round 2)
+mutant("c19-buffered-drain-token", "C19", "C19-D6", "packet_queue.go",
+       "		drain:  make(chan struct{}),", "		drain:  make(chan struct{}, 1),")
+mutant("c19-queue-read-before-swap", "C19", "C19-D7", "engine.io/server_socket.go",
+       """	s.transportMu.Lock()
+	defer s.transportMu.Unlock()
+
+	old := s.transport
+	s.transport = t
+	old.Discard()
+
+	// Get the queued packets from the old transport and send them with the new one.
+	qp := old.QueuedPackets()""",
+       """	qp := s.transport.QueuedPackets()
+
+	s.transportMu.Lock()
+	defer s.transportMu.Unlock()
+
+	old := s.transport
+	s.transport = t
+	old.Discard()
+""")
